@@ -1723,12 +1723,22 @@ fn gen_litbox(out: &mut impl Write, env: &Environment, thorough: bool) {
 //   eo <S|I> <variant> <n> s <a> <b> <c>     `v[a:b:c]` (parts: integers or `_`)
 //   eo <S|I> <variant> <n> i <key spec>      `v[k]` (expression) ~~ `Value::get_item`
 //   eo <S|I> <variant> <n> m                 `v|list`: what the object enumerates
+//   eo V <spec template> <n> s|i|m …         the same for a value spec (`#` = n): std collections, repetitions, views
 // =====================================================================================
 const EO_VARIANTS: [&str; 16] = ["none", "empty", "seq", "vals", "iter", "iterlo", "iterlow", "iternone", "rev", "revlo", "revnone",
                                  "str", "kv", "kvnone", "revkv", "revkvnone"];
 const EO_SHARDS: usize = 4;
 
-fn eo_spec(repr: &str, variant: &str, n: &str) -> String { format!("CE:{}:{}:{}", repr, variant, n) }
+/// `V <spec template> <n>`: any value spec, `#` standing for the length (the engine's own collections,
+/// repetitions, reversed views) instead of a custom object
+fn eo_spec(repr: &str, variant: &str, n: &str) -> String {
+    if repr == "V" { variant.replace('#', n) } else { format!("CE:{}:{}:{}", repr, variant, n) }
+}
+
+/// the engine's own sequence-like values on the complete box: `VecDeque`, arrays, `BTreeSet`,
+/// `LinkedList`, `HashSet` (0 / 1 items: its order is not fixed), custom `Seq` / `Iterable` objects,
+/// `range`, repetitions, reversed views of a list and of an iterable of unknown length
+const EO_VALUES: [&str; 12] = ["D:#", "A:4", "BS:#", "LL:#", "HS:#", "CS:#", "CI:#", "R:#", "RP:#x2", "RR:#x2x2", "RV:L=#", "RV:X=#"];
 
 fn run_eo(f: &[&str]) -> String {
     let spec = eo_spec(f[1], f[2], f[3]);
@@ -1770,6 +1780,30 @@ fn run_eo(f: &[&str]) -> String {
     }
 }
 
+fn gen_eo_values(out: &mut impl Write, thorough: bool, shard: usize, bs: &[String], steps: &[&str], keys: &[String]) {
+    for (vi, tmpl) in EO_VALUES.iter().enumerate() {
+        if vi % EO_SHARDS != shard { continue; }
+        for n in 0..=(if thorough { 6usize } else { 4 }) {
+            if (*tmpl == "A:4" && n != 4) || (*tmpl == "HS:#" && n > 1) { continue; }
+            let ns = n.to_string();
+            let f = ["eo", "V", tmpl, &ns, "m"];
+            writeln!(out, "{}\t{}", f.join(" "), run_eo(&f)).unwrap();
+            for a in bs {
+                for b in bs {
+                    for c in steps {
+                        let f = ["eo", "V", tmpl, &ns, "s", a, b, c];
+                        writeln!(out, "{}\t{}", f.join(" "), run_eo(&f)).unwrap();
+                    }
+                }
+            }
+            for k in keys {
+                let f = ["eo", "V", tmpl, &ns, "i", k];
+                writeln!(out, "{}\t{}", f.join(" "), run_eo(&f)).unwrap();
+            }
+        }
+    }
+}
+
 fn gen_eo(out: &mut impl Write, thorough: bool, shard: usize) {
     let lim: i64 = if thorough { 7 } else { 5 };
     let mut bs: Vec<String> = vec!["_".to_string()];
@@ -1780,6 +1814,7 @@ fn gen_eo(out: &mut impl Write, thorough: bool, shard: usize) {
     for k in ["T", "F", "Z", "U", "u:2", "I:-1", "I:1", "W:0", "sm:31", "i:-9223372036854775808", "i:9223372036854775807",
               "u:18446744073709551615", "I:-9223372036854775809", "L:1"] { keys.push(k.to_string()); }
     for x in [1.0f64, -1.0, -0.0, 1.5, f64::NAN] { keys.push(fb(x)); }
+    gen_eo_values(out, thorough, shard, &bs, &steps, &keys);
     for (vi, variant) in EO_VARIANTS.iter().enumerate() {
         if vi % EO_SHARDS != shard { continue; }
         for repr in ["S", "I"] {
